@@ -8,11 +8,18 @@
    [elts_fit] says the element buffer is shorter than 2^31 bytes: the proofs do not need it,
    it delimits the inputs on which the model's unbounded arithmetic is Go's int32 arithmetic.
    [span a] = 64 * number of bitmap words.  Outcomes: [Val x] is a normal return, [Panic] a Go
-   run-time panic.  The serialization theorems are at the level of the message fields; the
-   protobuf wire format is outside this file (see checks/C16.json, trusted base). *)
+   run-time panic.  Section 6 is the round trip at the level of the message fields; sections
+   8-12 close it over the protobuf WIRE FORMAT: [ser_array32] / [parse_array32] (ArrWire.v, over
+   the varint/token machinery of Varint.v/Proto.v) are proto.Marshal / proto.Unmarshal of
+   array.Array32 (with its sub-message array.Bits) as golang/protobuf 1.3.1 writes and reads
+   them; [marshal_array] / [unmarshal_typed] / [unmarshal_generic] compose them with the field
+   copies of section 6; [array32_wire_ok] says every field fits its Go type (int32 fields
+   < 2^31, uint32 < 2^32, words < 2^64, length prefixes < 2^64) - section 11 proves it for
+   everything the constructors build. *)
 From Coq Require Import List NArith ZArith Lia.
 From Coq.Strings Require Import Byte.
 From Slim Require Import BitmapRank BitmapRankProofs Arrays ArraysProofs.
+From Slim Require Import Varint Proto ProtoProofs ArrWire ArrWireProofs.
 Import ListNotations.
 Local Open Scope N_scope.
 
@@ -226,3 +233,151 @@ Example ex_rejected :
   new_typed U16 [5; 5] [1; 2]%Z = Val (Rejected ErrIndexNotAscending) /\
   new_typed U16 [9; 5] [1]%Z = Val (Rejected ErrIndexLen).
 Proof. vm_compute. split; reflexivity. Qed.
+
+(* ================= the protobuf wire format (proto.Marshal / proto.Unmarshal) ================= *)
+
+(* 8. the reader inverts the writer on EVERY well-formed message Array32 (any field values the
+      Go types can hold: negative int32, full-range uint32/uint64, absent / empty / filled
+      BMElts, any sizes), and [size_array32] (proto.Size) is the length of what is written *)
+Theorem C16_wire_roundtrip : forall a,
+  wf_array32 a = true -> parse_array32 (ser_array32 a) = Some a.
+Proof. exact parse_array32_ser. Qed.
+Print Assumptions C16_wire_roundtrip.
+
+Theorem C16_wire_roundtrip_bits : forall b,
+  wf_bits b = true -> parse_bits (ser_bits b) = Some b.
+Proof. exact parse_bits_ser. Qed.
+Print Assumptions C16_wire_roundtrip_bits.
+
+Theorem C16_wire_size : forall a, blen (ser_array32 a) = size_array32 a.
+Proof. exact size_array32_length. Qed.
+Print Assumptions C16_wire_size.
+
+(* 9. fields a newer writer added (any field number the schema does not know, varint or
+      length-delimited) are retained in XXX_unrecognized and written back: the message is
+      still reproduced exactly *)
+Theorem C16_wire_unknown_fields : forall a us,
+  wf_array32 a = true -> Forall canon us -> Forall (fun t => arr_known (tok_tag t) = false) us ->
+  parse_array32 (ser_array32 (wa_with_unk a (ser_toks us))) = Some (wa_with_unk a (ser_toks us)).
+Proof. exact parse_array32_ser_unknown. Qed.
+Print Assumptions C16_wire_unknown_fields.
+
+(* 10. proto.Unmarshal on ANY byte string (truncated, malformed, hostile) has exactly two
+       outcomes - its one error or a message; there is no third one (no panic), and which of
+       the two is decided by the acceptance scan [accepts_array32] that C07 uses for the legacy
+       three-section streams; every field of a loaded message fits its Go type ([fits_array32]:
+       int32 / uint32 / uint64 ranges), whatever the input was *)
+Theorem C16_wire_total : forall b,
+  (accepts_array32 b = true /\ exists a, parse_array32 b = Some a /\ fits_array32 a = true) \/
+  (accepts_array32 b = false /\ parse_array32 b = None).
+Proof. exact parse_array32_total_fits. Qed.
+Print Assumptions C16_wire_total.
+
+(* 11. what the three constructors build from a valid input can be marshalled: every field
+       fits its Go type and every length prefix fits a uint64 *)
+Theorem C16_built_arrays_wire_ok : forall k ty idx zs vs b,
+  ascending idx = true -> idx_ok idx ->
+  (length zs = length idx -> Forall (int_ok k) zs -> elts_fit [k] idx ->
+     new_typed k idx zs = Val (Built b) -> array32_wire_ok (arr b) = true) /\
+  (length vs = length idx -> Forall (value_ok ty) vs -> elts_fit ty idx ->
+     (new_generic ty idx vs = Val (Built b) -> array32_wire_ok (arr b) = true) /\
+     (new_with_encoder ty idx vs = Val (Built b) -> array32_wire_ok (arr b) = true)).
+Proof.
+  intros k ty idx zs vs b Hasc Hok. split.
+  - intros. eapply typed_array_wire_ok; eassumption.
+  - intros. split; intros; [eapply generic_array_wire_ok|eapply encoder_array_wire_ok]; eassumption.
+Qed.
+Print Assumptions C16_built_arrays_wire_ok.
+
+(* 12. the round trip THROUGH THE BYTES, for every array whose fields fit their Go types:
+       Unmarshal(Marshal(b)) into the array's own type is b itself; into either type it has
+       the same seven fields, hence the same answer of every accessor at every probe (section
+       4), and a typed array reloaded as a generic one (or the other way round) answers every
+       probe identically *)
+Theorem C16_roundtrip_bytes : forall b ty k,
+  array32_wire_ok (arr b) = true ->
+  (enc b = None -> unmarshal_typed (marshal_array b) = Some b) /\
+  (enc b = Some ty -> unmarshal_generic ty (marshal_array b) = Some b) /\
+  (exists bt bg,
+     unmarshal_typed (marshal_array b) = Some bt /\ unmarshal_generic ty (marshal_array b) = Some bg /\
+     arr bt = arr b /\ enc bt = None /\ arr bg = arr b /\ enc bg = Some ty) /\
+  (length (Offsets (arr b)) = length (Bitmaps (arr b)) ->
+   exists bg bt,
+     unmarshal_generic [k] (marshal_array b) = Some bg /\ unmarshal_typed (marshal_array b) = Some bt /\
+     forall i,
+       base_get bg i = generic_of_typed (typed_get k (arr b) i) /\
+       generic_of_typed (typed_get k (arr bt) i) = base_get {| arr := arr b; enc := Some [k] |} i).
+Proof. exact wire_roundtrip. Qed.
+Print Assumptions C16_roundtrip_bytes.
+
+(* end to end, typed arrays: build, Marshal to bytes, Unmarshal - the typed reload IS the
+   array (so it is the same sparse map), the generic reload has the same fields and answers
+   every probe like the typed accessor; the bytes are as long as proto.Size says *)
+Theorem C16_typed_survives_bytes : forall k idx zs,
+  ascending idx = true -> idx_ok idx -> length zs = length idx -> Forall (int_ok k) zs ->
+  elts_fit [k] idx ->
+  exists b, new_typed k idx zs = Val (Built b) /\
+    sparse_map_typed k b idx zs /\
+    blen (marshal_array b) = size_array32 (wire_of_array32 (arr b)) /\
+    unmarshal_typed (marshal_array b) = Some b /\
+    unmarshal_generic [k] (marshal_array b) = Some {| arr := arr b; enc := Some [k] |} /\
+    (forall i, base_get {| arr := arr b; enc := Some [k] |} i = generic_of_typed (typed_get k (arr b) i)).
+Proof. exact typed_array_survives_bytes. Qed.
+Print Assumptions C16_typed_survives_bytes.
+
+(* end to end, generic arrays (at least one element) *)
+Theorem C16_generic_survives_bytes : forall ty idx vs,
+  ascending idx = true -> idx_ok idx -> length vs = length idx -> Forall (value_ok ty) vs ->
+  elts_fit ty idx -> idx <> [] ->
+  exists b, new_generic ty idx vs = Val (Built b) /\
+    sparse_map_generic ty b idx vs /\
+    blen (marshal_array b) = size_array32 (wire_of_array32 (arr b)) /\
+    unmarshal_generic ty (marshal_array b) = Some b /\
+    unmarshal_typed (marshal_array b) = Some {| arr := arr b; enc := None |}.
+Proof. exact generic_array_survives_bytes. Qed.
+Print Assumptions C16_generic_survives_bytes.
+
+(* ---- concrete bytes: what the real proto.Marshal wrote (harness case with ex_idx/ex_vals,
+        and wire message m1), reproduced by the model and read back ---- *)
+Definition ex_bytes : list byte :=
+  [x08; x04; x12; x06; xa2; x04; x00; x00; x80; x10; x1a; x04; x00; x00; x00; x03;
+   x22; x08; x0c; x00; x0f; x00; x13; x00; x78; x00].
+
+Example ex_marshal :
+  match new_typed U16 ex_idx ex_vals with
+  | Val (Built b) =>
+    array32_wire_ok (arr b) = true /\ marshal_array b = ex_bytes /\
+    size_array32 (wire_of_array32 (arr b)) = 26 /\
+    unmarshal_typed ex_bytes = Some b /\
+    match unmarshal_generic [U16] ex_bytes with
+    | Some g => base_get g 203 = Val (Some [120%Z]) /\ base_get g 100 = Val None
+    | None => False
+    end
+  | _ => False
+  end.
+Proof. vm_compute. repeat split. Qed.
+
+(* negative int32, a uint32 above 2^31, a word with bit 63, a filled sub-message *)
+Definition ex_wire_msg : warray :=
+  mkWArray 3 [9223372036854775809; 0] [0; -1]%Z [x61; x62; x63] 2147483648 (-2)
+           (Some (mkWBits 1 300 [255] [0; 7]%Z [])) [].
+Definition ex_wire_bytes : list byte :=
+  [x08; x03; x12; x0b; x81; x80; x80; x80; x80; x80; x80; x80; x80; x01; x00; x1a;
+   x0b; x00; xff; xff; xff; xff; xff; xff; xff; xff; xff; x01; x22; x03; x61; x62;
+   x63; x50; x80; x80; x80; x80; x08; xa0; x01; xfe; xff; xff; xff; xff; xff; xff;
+   xff; xff; x01; xf2; x01; x0f; x08; x01; x50; xac; x02; xa2; x01; x02; xff; x01;
+   xf2; x01; x02; x00; x07].
+
+Example ex_wire :
+  wf_array32 ex_wire_msg = true /\ ser_array32 ex_wire_msg = ex_wire_bytes /\
+  size_array32 ex_wire_msg = 69 /\ parse_array32 ex_wire_bytes = Some ex_wire_msg.
+Proof. vm_compute. repeat split. Qed.
+
+(* malformed input is rejected, unknown fields are kept: a truncated stream, a length prefix
+   beyond the end, field number 0, an unknown varint field 7 *)
+Example ex_wire_malformed :
+  parse_array32 (firstn 20 ex_bytes) = None /\
+  parse_array32 [x22; x05; x61] = None /\
+  parse_array32 [x00; x01] = None /\
+  parse_array32 [x08; x04; x38; x2a] = Some (mkWArray 4 [] [] [] 0 0 None [x38; x2a]).
+Proof. vm_compute. repeat split. Qed.
